@@ -59,8 +59,8 @@ func inBubble(r *Run, f func(rr *randRecorder)) {
 			// synctest's own end-of-bubble panic ("blocked goroutines remain") when a run
 			// abandons goroutines on purpose
 			if x := recover(); x != nil {
-				if s, ok := x.(string); ok && strings.Contains(s, "deadlock: main bubble goroutine has exited") {
-					return
+				if strings.Contains(fmt.Sprint(x), "main bubble goroutine has exited but blocked goroutines remain") {
+					return // expected: a run leaves the agent's goroutines behind, frozen in a dead bubble
 				}
 				if pan == nil {
 					pan = x
